@@ -207,6 +207,11 @@ func checkC14(e *Env) {
 				send(plan.Op{Fn: "new", L: l, N: n}, "word-count-default-source")
 				send(plan.Op{Fn: "new", L: l, N: n, Src: &plan.Src{Data: hx(r.Bytes(48))}}, "word-count-working-source")
 				send(plan.Op{Fn: "new", L: l, N: n, Src: &plan.Src{Data: "", Steps: []plan.Step{{N: 0, E: "custom"}}}}, "word-count-failing-source")
+				if validCount64(n) || i%9 == 0 {
+					for _, kind := range failureKinds[3:] {
+						send(plan.Op{Fn: "new", L: l, N: n, Src: &plan.Src{Data: hx(r.Bytes(7)), Steps: []plan.Step{{N: 7, E: kind}}}}, "word-count-source-failing-with-"+kind)
+					}
+				}
 				// a source that returns (0, nil) a bounded number of times before delivering
 				zs := make([]plan.Step, 0, 40)
 				for k := 0; k < 32; k++ {
@@ -215,6 +220,29 @@ func checkC14(e *Env) {
 				zs = append(zs, plan.Step{N: 1}, plan.Step{N: 0}, plan.Step{N: 0})
 				send(plan.Op{Fn: "new", L: l, N: n, Src: &plan.Src{Data: hx(r.Bytes(48)), Steps: zs}}, "word-count-stuttering-source")
 				send(plan.Op{Fn: "new", L: l, N: n, Src: &plan.Src{Data: hx(r.Bytes(5))}}, "word-count-short-source")
+			}
+			// a valid sentence frame of every word count with ONE hostile token: every token
+			// length 1..130 in runes for 1-, 2-, 3- and 4-byte runes and for invalid bytes
+			for ui, unit := range []string{"q", "\u00e9", "\u3042", "\U0001f600", "\xff", "\u0301", "\ud55c"} {
+				for n := 1; n <= 130; n++ {
+					size := ref.EntSizes[(n+ui)%5]
+					sl := []int{2, 5, 6, 0, 3}[(n+ui)%5]
+					w := strings.Split(e.Model.Enc(r.Bytes(size), sl), ref.Sep(sl))
+					pos := []int{0, len(w) / 2, len(w) - 1}[n%3]
+					w[pos] = strings.Repeat(unit, n)
+					s := strings.Join(w, " ")
+					send(plan.Op{Fn: "chk", L: int64(sl), S: hxs(s)}, "frame-with-hostile-token")
+					if n%4 == 0 {
+						send(plan.Op{Fn: "val", L: int64(sl), S: hxs(s)}, "frame-with-hostile-token")
+					}
+				}
+			}
+			for _, n := range []int{200, 500, 861, 862, 1000, 4096, 70000} {
+				for _, unit := range []string{"k", "\u4e00"} {
+					w := strings.Split(e.Model.Enc(r.Bytes(16), 2), " ")
+					w[n%12] = strings.Repeat(unit, n)
+					send(plan.Op{Fn: "chk", L: 2, S: hxs(strings.Join(w, " "))}, "frame-with-long-token")
+				}
 			}
 			// hostile strings for every string-taking function
 			for i, hs := range e.hostileStringShapes(maxStr) {
